@@ -365,6 +365,9 @@ func (rt *RT) mkResult(f *Fn, exec int, r Result, t reflect.Type, slot string, t
 		}
 		return sl
 	}
+	if r.Zero {
+		return reflect.Zero(t)
+	}
 	tok := rt.newTok(f.ID, exec, slot, 0)
 	*toks = append(*toks, tok)
 	return mkValue(r.T, r.Impl, tok)
